@@ -24,6 +24,9 @@ package store
 
 //@ -- objects of the directory store carry the configuration of their store (object invariant; dir.RepoGet establishes it
 //@ -- for the repositories it creates); write permission is the negation of the read-only switch
+//@ funcs dir.* dirRepo.* mem.* memRepo.*
+//@   requires invariant [conf-defaulted] config.defaulted(recv.conf)
+
 //@ funcs dir.* dirRepo.*
 //@   props C14
 //@   requires invariant [dir-store-conf] recv.conf.Storage.ReadOnly == roPtr() && roPtr() != nil && (fsWritable() <==> !*roPtr())
@@ -42,7 +45,8 @@ package store
 //@ -- fault(): a store call failed for a reason the request did not cause (I/O, closed store, cancelled context).
 //@ model Repo { name string; blobs set[digest.Digest] }
 //@ -- an upload session: the repository it belongs to, and a counter of state-changing calls (Write, Verify, Close, Cancel, ChangeAlgorithm)
-//@ model BlobCreator { repo string; written int; gone bool; size int }
+//@ -- pinned: the digest fixed when the session was created ("" if none); verified: the digest of the last successful Verify
+//@ model BlobCreator { repo string; written int; gone bool; size int; pinned digest.Digest; verified digest.Digest }
 //@ -- a reader handed out by BlobGet reads the blob stored under the digest it was asked for (C01: what the store keeps
 //@ -- under a digest hashes to it is the store's own obligation, see the upload objects)
 //@ model ReadSeekCloser { of digest.Digest }
@@ -99,7 +103,7 @@ package store
 //@ iface (repo Repo) BlobCreate(opts []BlobOpt) (bc BlobCreator, sessionID string, err error)
 //@   modifies ghost(fault), ghost(blobReady), alloc, ghost(fswrites)
 //@   ensures [fs-policy]{C14} !fsWritable() ==> fswrites() == old(fswrites())
-//@   ensures [ok] err == nil ==> bc != nil && bc.repo == repo.name && bc.written == 0 && !bc.gone && !blobReady()
+//@   ensures [ok] err == nil ==> bc != nil && bc.repo == repo.name && bc.written == 0 && !bc.gone && !blobReady() && bc.verified == ""
 //@   ensures [err] err != nil ==> bc == nil && (errIs(err, types.ErrBlobExists) || fault()) && (blobReady() <==> errIs(err, types.ErrBlobExists))
 //@   ensures [fault-monotone] old(fault()) ==> fault()
 
@@ -117,6 +121,7 @@ package store
 //@   ensures [err] err != nil ==> bc == nil
 
 //@ iface (bc BlobCreator) Write(p []byte) (n int, err error)
+//@   ensures [own-error] err != types.ErrBlobExists
 //@   modifies ghost(fault), alloc, BlobCreator.written, BlobCreator.size, ghost(fswrites)
 //@   ensures [fs-policy]{C14} !fsWritable() ==> fswrites() == old(fswrites())
 //@   ensures [counted] bc.written == old(bc.written) + 1 && bc.size >= old(bc.size)
@@ -124,11 +129,16 @@ package store
 //@   ensures [fault-monotone] old(fault()) ==> fault()
 
 //@ iface (bc BlobCreator) Close() (err error)
+//@   ensures [own-error] err != types.ErrBlobExists
 //@   modifies ghost(fault), ghost(mutations), ghost(blobReady), alloc, BlobCreator.written, BlobCreator.gone, Repo.blobs, ghost(fswrites)
 //@   ensures [fs-policy]{C14} !fsWritable() ==> fswrites() == old(fswrites())
 //@   ensures [counted] bc.written == old(bc.written) + 1
 //@   ensures [ok] err == nil ==> bc.gone && blobReady() && mutations() == old(mutations()) + 1
-//@   ensures [err] err != nil ==> fault() && mutations() == old(mutations())
+//@   -- Close fails for a storage fault, or because the content is not what was pinned at creation; after a successful
+//@   -- Verify the latter cannot happen (Verify respects the pinned digest), so the handler may treat it as a fault
+//@   -- (a session that was never verified fails to close only for a storage fault: manifestPut, the only handler that
+//@   -- closes without Verify, pins the digest it computed from the very bytes it writes - assumed, needs a content model)
+//@   ensures [err] err != nil ==> mutations() == old(mutations()) && (fault() || (bc.verified != "" && bc.pinned != "" && bc.pinned != bc.verified))
 //@   ensures [fault-monotone] old(fault()) ==> fault()
 
 //@ iface (bc BlobCreator) Cancel() (err error)
@@ -149,9 +159,12 @@ package store
 //@   ensures [fs-policy]{C14} !fsWritable() ==> fswrites() == old(fswrites())
 
 //@ iface (bc BlobCreator) Verify(d digest.Digest) (err error)
-//@   modifies alloc, BlobCreator.written, ghost(fswrites)
+//@   modifies alloc, BlobCreator.written, BlobCreator.verified, ghost(fswrites)
 //@   ensures [fs-policy]{C14} !fsWritable() ==> fswrites() == old(fswrites())
 //@   ensures [counted] bc.written == old(bc.written) + 1
+//@   ensures [verified] err == nil ==> bc.verified == d
+//@   -- proved for both implementations (dirRepoUpload.Verify, memRepoUpload.Verify: pinned-respected)
+//@   ensures [pinned-respected] err == nil ==> bc.pinned == "" || bc.pinned == d
 
 //@ iface (bc BlobCreator) ChangeAlgorithm(a digest.Algorithm) (err error)
 //@   modifies alloc, ghost(fswrites)
@@ -191,16 +204,37 @@ package store
 //@   modifies ghost(fault), alloc, ghost(fswrites)
 //@   ensures [fs-policy]{C14} !fsWritable() ==> fswrites() == old(fswrites())
 
+//@ iface (repo Repo) blobCreate(locked bool, opts []BlobOpt) (bc BlobCreator, sessionID string, err error)
+//@   modifies ghost(fault), ghost(blobReady), alloc, ghost(fswrites)
+//@   ensures [fs-policy]{C14} !fsWritable() ==> fswrites() == old(fswrites())
+//@   ensures [ok] err == nil ==> bc != nil
+//@   ensures [err] err != nil ==> bc == nil
+
 //@ iface (repo Repo) blobDelete(d digest.Digest, locked bool) (err error)
 //@   modifies ghost(fault), ghost(mutations), alloc, ghost(fswrites), Repo.blobs
 //@   ensures [fs-policy]{C14} !fsWritable() ==> fswrites() == old(fswrites())
 
 //@ -- options are applied to the structure they are given and nothing else
 //@ callback BlobOpt(bc *blobConfig) (err error)
+//@   requires bc != nil
 //@   modifies field(blobConfig.algo), field(blobConfig.expect), alloc
+//@   -- an option reports its own errors, never the store's "exists" answer (proved for BlobWithAlgorithm$1, BlobWithDigest$1)
+//@   ensures [own-error] err != types.ErrBlobExists
+
+//@ func BlobWithAlgorithm$1(bc *blobConfig) (err error)
+//@   requires bc != nil
+//@   ensures [own-error] err != types.ErrBlobExists
+
+//@ func BlobWithDigest$1(bc *blobConfig) (err error)
+//@   requires bc != nil
+//@   ensures [own-error] err != types.ErrBlobExists
 
 //@ callback Opts(sc *storeConf)
+//@   requires sc != nil
 //@   modifies field(storeConf.log), alloc
+
+//@ func WithLog$1(sc *storeConf)
+//@   requires sc != nil
 
 //@ -- functions of the directory store that write without looking at the switch themselves: their callers must have
 //@ func (dr *dirRepo) gc() (err error)
@@ -212,9 +246,14 @@ package store
 
 //@ func (dr *dirRepo) repoInit(locked bool) (err error)
 //@   requires [not-read-only]{C14} !*roPtr()
+//@   ensures [own-error]{C05} err != types.ErrBlobExists
+
+//@ func (dr *dirRepo) indexSave(locked bool) (err error)
+//@   ensures [own-error]{C05} err != types.ErrBlobExists
 
 //@ func (d *dir) gc(cur time.Time, prev time.Time) (err error)
 //@   requires [not-read-only]{C14} !*roPtr()
+//@   loop 1: exits [failing-repository-does-not-end-the-pass]{C06} only "stop signal received"
 
 //@ func (d *dir) gcTicker()
 //@   requires stable [not-read-only]{C14} !*roPtr()
@@ -224,6 +263,8 @@ package store
 //@   requires invariant [dir-store-conf] dr != nil && dr.conf.Storage.ReadOnly == roPtr() && roPtr() != nil && (fsWritable() <==> !*roPtr())
 
 //@ func NewDir(conf config.Config, opts []Opts) (st Store)
+//@   requires [conf-defaulted]{C15} config.defaulted(conf)
+//@   ensures [built] st != nil
 //@   requires invariant [dir-store-conf] conf.Storage.ReadOnly == roPtr() && roPtr() != nil && (fsWritable() <==> !*roPtr())
 
 //@ -- ------------------------------------------------------------------
@@ -231,23 +272,31 @@ package store
 //@ -- its current digester, so the digest it reports and stores the blob under is the digest of what it holds.
 //@ -- Representation invariant of the two upload types: the writer is the tee of exactly these two.
 //@ pred dirUploadInv(u) := u.d != nil && (u.w != nil ==> teeA(u.w) == objOf(u.fh) && teeB(u.w) == hashOf(u.d))
-//@ pred memUploadInv(u) := u.d != nil && u.buffer != nil && u.w != nil && teeA(u.w) == objOf(u.buffer) && teeB(u.w) == hashOf(u.d)
+//@ -- (the last conjunct: maps of different Go types are different objects; the encoding keeps maps with the same key and
+//@ -- value sorts in one component and has to be told)
+//@ pred memUploadInv(u) := u.d != nil && u.buffer != nil && u.w != nil && teeA(u.w) == objOf(u.buffer) && teeB(u.w) == hashOf(u.d) &&
+//@        u.mr != nil && u.mr.uploads != nil && u.mr.blobs != u.mr.uploads.entries
 
 //@ funcs dirRepoUpload.* !dirRepoUpload.delete$1
 //@   requires invariant [tee] dirUploadInv(recv)
 //@   ensures [tee-kept]{C01} dirUploadInv(recv)
+
+//@ funcs memRepo.*
+//@   requires invariant [distinct-maps] recv.uploads != nil && recv.blobs != recv.uploads.entries
 
 //@ funcs memRepoUpload.*
 //@   requires invariant [tee] memUploadInv(recv)
 //@   ensures [tee-kept]{C01} memUploadInv(recv)
 
 //@ -- where the objects are built
-//@ func (dr *dirRepo) BlobCreate(opts []BlobOpt) (bc BlobCreator, sessionID string, err error)
+//@ func (dr *dirRepo) blobCreate(locked bool, opts []BlobOpt) (bc BlobCreator, sessionID string, err error)
+//@   ensures [exists-refreshes-age]{C05} err == types.ErrBlobExists ==> mtimeOf(blobName) >= old(clock())
 //@   assert [new-upload-tee]{C01} before call Cache.Set#1: dirUploadInv(bc)
 //@   assert [upload-only-when-writable]{C14} before call Cache.Set#1: fsWritable()
 
-//@ func (mr *memRepo) BlobCreate(opts []BlobOpt) (bc BlobCreator, sessionID string, err error)
+//@ func (mr *memRepo) blobCreate(locked bool, opts []BlobOpt) (bc BlobCreator, sessionID string, err error)
 //@   assert [new-upload-tee]{C01} before call Cache.Set#1: memUploadInv(bc)
+//@   ensures [exists-refreshes-age]{C05} err == types.ErrBlobExists ==> mr.blobs[conf.expect] != nil && mr.blobs[conf.expect].m.mod >= old(clock())
 
 
 //@ -- ------------------------------------------------------------------
@@ -279,3 +328,58 @@ package store
 //@ -- no other function of the package touches the file system
 //@ funcs * !dirRepo.* !dirRepoUpload.* !memRepo.* !dir.RepoGet
 //@   fspath [no-file-access-expected]{C16} false
+
+//@ func NewMem(conf config.Config, opts []Opts) (st Store)
+//@   requires [conf-defaulted]{C15} config.defaulted(conf)
+//@   ensures [built] st != nil
+
+//@ -- ------------------------------------------------------------------
+//@ -- C05, step invariants of the collector (not the closure argument, see DESIGN.md 11): every child of a walked index
+//@ -- is queued, the config and every layer of a walked image are marked, and only unmarked blobs are removed.
+//@ func repoGarbageCollect(repo Repo, conf config.Config, index types.Index, locked bool) (out types.Index, mod bool, err error)
+//@   requires [conf-defaulted] config.defaulted(conf)
+//@   loop 3: invariant [children-queued]{C05} forall k: int :: 0 <= k && k <= rangeindex && k < len(man.Manifests) ==>
+//@             exists j: int :: 0 <= j && j < len(manifests) && manifests[j].Digest == man.Manifests[k].Digest
+//@   loop 4: invariant [layers-marked]{C05} (seen != nil) && (forall k: int :: 0 <= k && k <= rangeindex && k < len(man#2.Layers) ==> seen[man#2.Layers[k].Digest])
+//@   loop 4: invariant [config-marked]{C05} seen[man#2.Config.Digest]
+//@   assert [removes-only-unmarked-blobs]{C05} before "blobDelete(d, locked)": !seen[d#3]
+//@   assert [removes-only-unmarked-entries]{C05} before call Index.RmDesc#2: !seen[d#3]
+//@   assert [removes-only-blobless-entries]{C05} before call Index.RmDesc#1: !blobExists[d#4]
+
+
+//@ -- a digest pinned when the session was created is part of what Verify checks: otherwise a PUT whose digest matches
+//@ -- the content passes Verify, fails Close and is answered with a 500 although the client is at fault (C15, C08)
+//@ func (dru *dirRepoUpload) Verify(expect digest.Digest) (err error)
+//@   ensures [pinned-respected]{C15,C08} err == nil ==> dru.expect == "" || dru.expect == expect
+
+//@ func (mru *memRepoUpload) Verify(expect digest.Digest) (err error)
+//@   ensures [pinned-respected]{C15,C08} err == nil ==> mru.expect == "" || mru.expect == expect
+
+//@ -- index ingest (C10, C02): the scan of nested indexes is a work list; it is only left when the list is empty, so
+//@ -- every index met on the way (at any depth) has had its children recorded
+//@ func indexIngest(repo Repo, index *types.Index, conf config.Config, locked bool) (mod bool, err error)
+//@   requires [conf-defaulted] config.defaulted(conf)
+//@   ensures [nested-indexes-all-scanned]{C10,C02} err == nil ==> len(scanChildren) == 0
+//@   -- C17, the conversion terminates and can be repeated: (1) both implementations of BlobCreate take the repository lock,
+//@   -- so with the lock held (locked == true: the directory store loads its index under the lock) nothing may be done
+//@   -- through the public methods of the repository, which take the lock themselves: only the internal, lock-aware ones; (2) finding the regenerated response already
+//@   -- stored (an interrupted conversion, or a response equal to an existing blob) is not a failure
+//@   forbid [no-relock-while-locked]{C17} "repo.BlobCreate("
+//@   forbid [no-relock-while-locked]{C17} "repo.IndexInsert("
+//@   forbid [no-relock-while-locked]{C17} "repo.IndexRemove("
+//@   forbid [no-relock-while-locked]{C17} "repo.IndexGet("
+//@   forbid [no-relock-while-locked]{C17} "repo.BlobDelete("
+//@   forbid [no-relock-while-locked]{C17} "repo.BlobGet("
+//@   ensures [already-stored-is-not-a-failure]{C17} err != types.ErrBlobExists
+
+//@ -- C05, "recent" means recently acknowledged: an upload that is closed, and a BlobCreate that answers "exists" (which the
+//@ -- handlers acknowledge with 201), leave the blob with an age not older than the start of the call, so the grace
+//@ -- period protects it until the manifest that needs it arrives
+//@ func (mru *memRepoUpload) Close() (err error)
+//@   ensures [ack-is-recent]{C05} err == nil ==> (digestNow(mru.d) in mru.mr.blobs) && mru.mr.blobs[digestNow(mru.d)] != nil &&
+//@             mru.mr.blobs[digestNow(mru.d)].m.mod >= old(clock())
+
+//@ -- C06: a repository whose collection fails does not end the pass: inside the loop over the repositories the only
+//@ -- return is the reaction to the stop signal
+//@ func (m *mem) gc(cur time.Time, prev time.Time) (err error)
+//@   loop 2: exits [failing-repository-does-not-end-the-pass]{C06} only "stop signal received"
